@@ -571,6 +571,9 @@ impl Calendar {
             AnyCalendarKind::Ethiopian if era::ETHIOPIC_ERA_IDENTIFIERS.contains(era_alias) => {
                 Some(era::ETHIOPIC_ERA)
             }
+            AnyCalendarKind::Ethiopian if *era_alias == tinystr!(19, "ethiopic-inverse") => {
+                Some(era::ETHIOPIC_INVERSE_ERA)
+            }
             AnyCalendarKind::Ethiopian
                 if era::ETHIOPIC_ETHOPICAA_ERA_IDENTIFIERS.contains(era_alias) =>
             {
@@ -617,27 +620,39 @@ impl Calendar {
                 Some(era::ISLAMIC_UMALQURA_ERA)
             }
             AnyCalendarKind::Iso if *era_alias == tinystr!(19, "default") => Some(era::ISO_ERA),
-            AnyCalendarKind::Japanese if *era_alias == tinystr!(19, "heisei") => {
+            AnyCalendarKind::Japanese | AnyCalendarKind::JapaneseExtended
+                if *era_alias == tinystr!(19, "heisei") =>
+            {
                 Some(era::HEISEI_ERA)
             }
-            AnyCalendarKind::Japanese if era::JAPANESE_ERA_IDENTIFIERS.contains(era_alias) => {
+            AnyCalendarKind::Japanese | AnyCalendarKind::JapaneseExtended
+                if era::JAPANESE_ERA_IDENTIFIERS.contains(era_alias) =>
+            {
                 Some(era::JAPANESE_ERA)
             }
-            AnyCalendarKind::Japanese
+            AnyCalendarKind::Japanese | AnyCalendarKind::JapaneseExtended
                 if era::JAPANESE_INVERSE_ERA_IDENTIFIERS.contains(era_alias) =>
             {
                 Some(era::JAPANESE_INVERSE_ERA)
             }
-            AnyCalendarKind::Japanese if *era_alias == tinystr!(19, "mejei") => {
-                Some(era::MEJEI_ERA)
+            AnyCalendarKind::Japanese | AnyCalendarKind::JapaneseExtended
+                if *era_alias == tinystr!(19, "meiji") =>
+            {
+                Some(era::MEIJI_ERA)
             }
-            AnyCalendarKind::Japanese if *era_alias == tinystr!(19, "reiwa") => {
+            AnyCalendarKind::Japanese | AnyCalendarKind::JapaneseExtended
+                if *era_alias == tinystr!(19, "reiwa") =>
+            {
                 Some(era::REIWA_ERA)
             }
-            AnyCalendarKind::Japanese if *era_alias == tinystr!(19, "showa") => {
+            AnyCalendarKind::Japanese | AnyCalendarKind::JapaneseExtended
+                if *era_alias == tinystr!(19, "showa") =>
+            {
                 Some(era::SHOWA_ERA)
             }
-            AnyCalendarKind::Japanese if *era_alias == tinystr!(19, "taisho") => {
+            AnyCalendarKind::Japanese | AnyCalendarKind::JapaneseExtended
+                if *era_alias == tinystr!(19, "taisho") =>
+            {
                 Some(era::TAISHO_ERA)
             }
             AnyCalendarKind::Persian if era::PERSIAN_ERA_IDENTIFIERS.contains(era_alias) => {
